@@ -188,6 +188,7 @@ type FX struct {
 	cellFns  map[string]Val
 	lockMode bool
 	unknown  []string
+	unknownSeen bool // an unknown call was executed: state touched for the first time afterwards is arbitrary too
 	axioms   []string
 	constArrs map[string]string
 	cwSeen   map[*ssa.Function]bool
@@ -217,6 +218,14 @@ func (fx *FX) sv(st *State, name string, srt Sort) string {
 		fx.entryFacts(name, srt, c)
 	}
 	st.vars[name] = c
+	if fx.unknownSeen {
+		// a call without contract was executed earlier in this function: it may have changed any part of the state,
+		// also the parts that are looked at for the first time only now
+		f := fx.ctx.Fresh(name, srt)
+		st.vars[name] = f
+		fx.modified[name] = true
+		return f
+	}
 	return c
 }
 
